@@ -887,4 +887,96 @@ theorem init_inv (K nb : Nat) (split : Nat → Bool) :
     simp [a3, a5, b4, b6]
     constructor <;> split <;> omega
 
+/-! ## from the skeletons to the normal form -/
+
+theorem flatMap_const_nil {α β : Type} (l : List α) : l.flatMap (fun _ => ([] : List β)) = [] := by
+  induction l with
+  | nil => rfl
+  | cons a l ih => simp
+
+theorem flatMap_range_single (K : Nat) (x : MEv) : (List.range K).flatMap (fun _ => [x]) = List.replicate K x := by
+  induction K with
+  | zero => rfl
+  | succ K ih => simp [List.range_succ, List.flatMap_append, ih, List.replicate_succ']
+
+theorem flatMap_rev_range (f : Nat → List MEv) (g : Nat → List MEv) (hg0 : g 0 = []) (hgs : ∀ n, g (n + 1) = f n ++ g n) (n : Nat) :
+    (List.range n).reverse.flatMap f = g n := by
+  induction n with
+  | zero => simp [hg0]
+  | succ n ih => simp [List.range_succ, hgs, ih]
+
+theorem worker_bind {f : Fn} (h : WorkerOK f = true) (c : Ch) : (workerTrace f true).map (Ev.bind c) = W c := by
+  simp only [WorkerOK, Bool.and_eq_true, beq_iff_eq] at h
+  rw [h.1.2]
+  simp [Ev.bind, Ch.bind, chResParam, W]
+
+theorem trace_canonReduce (env : Env) (hnb : 1 ≤ env.nb) : trace env canonReduce = recvs env.nb := by
+  obtain ⟨K, nb, thr, split, j, res, worker, calls⟩ := env
+  simp only at hnb
+  obtain ⟨n, rfl⟩ : ∃ n, nb = n + 1 := ⟨nb - 1, by omega⟩
+  simp [trace, canonReduce, unroll, loopVals, chanOf, ← List.map_reverse, List.flatMap_map, flatMap_const_nil, recvs]
+  exact flatMap_rev_range (fun v => [MEv.ev (Ev.recv (Ch.chunk v))]) recvs rfl (fun n => rfl) n
+
+theorem trace_canonMain (cap : Cap) (t : String) (cs : List String) (r : String) (env : Env) (hthr : env.thr = true)
+    (hw : ∀ j c, env.worker j c = W c) (hcalls : env.calls r = recvs env.nb) :
+    trace env (canonMain cap t cs r) = normalMain env.K env.nb env.split := by
+  obtain ⟨K, nb, thr, split, j, res, worker, calls⟩ := env
+  simp only at hthr hw hcalls; subst hthr
+  have hsp : (List.range nb).reverse.flatMap (chunkEvs split) = spawns split nb :=
+    flatMap_rev_range (chunkEvs split) (spawns split) rfl (fun n => rfl) nb
+  simp [trace, canonMain, unroll, loopVals, condVal, chanOf, ← List.map_reverse, List.flatMap_map, flatMap_const_nil, hw, hcalls,
+    normalMain, MEv.plain, flatMap_range_single]
+  have h1 : ∀ a, (if split a = true then
+              ([MEv.ev (Ev.send Ch.sem), MEv.go (W (Ch.split a)), MEv.go (W (Ch.split a)),
+                  MEv.go [Ev.recv (Ch.split a), Ev.recv (Ch.split a), Ev.close (Ch.split a), Ev.send (Ch.chunk a)]],
+                ([] : List MEv))
+            else ([MEv.go (W (Ch.chunk a))], [])) = (chunkEvs split a, []) := by
+    intro a; unfold chunkEvs Cj; split <;> rfl
+  simp only [h1, flatMap_const_nil, hsp, List.nil_append]
+
+theorem cap_enough {cap : Cap} (h : cap.enough = true) (K nb : Nat) : K + nb ≤ cap.eval K nb := by
+  cases cap with
+  | lit n => simp [Cap.enough] at h
+  | text => simp [Cap.enough] at h
+  | lin a b c =>
+    simp [Cap.enough] at h
+    have h1 : K ≤ a * K := Nat.le_mul_of_pos_left K h.1
+    have h2 : nb ≤ b * nb := Nat.le_mul_of_pos_left nb h.2
+    simp only [Cap.eval]; omega
+
+/-- `MainOK` / `WorkerOK` skeletons unroll to the normal form, with enough capacity -/
+theorem mainOK_normal (ws rs : List Fn) (f : Fn) (hm : MainOK ws rs f = true) (K nb : Nat) (hnb : 1 ≤ nb)
+    (split : Nat → Bool) (pick : Nat → Fn) (hpick : ∀ j, WorkerOK (pick j) = true) :
+    mainTrace f rs K nb true split pick = normalMain K nb split ∧ K + nb ≤ semCapOf f K nb := by
+  unfold MainOK at hm
+  split at hm
+  · rename_i cap t cs r h1 h2 h3
+    simp only [Bool.and_eq_true, beq_iff_eq] at hm
+    obtain ⟨⟨⟨⟨⟨_, hbody⟩, henough⟩, _⟩, _⟩, hred⟩ := hm
+    constructor
+    · unfold mainTrace
+      rw [hbody]
+      refine trace_canonMain cap t cs r _ rfl (fun j c => worker_bind (hpick j) c) ?_
+      simp only
+      split at hred
+      · rename_i g hg
+        simp only [ReduceOK, Bool.and_eq_true, beq_iff_eq] at hred
+        simp only [hred.2]
+        exact trace_canonReduce _ hnb
+      · simp at hred
+    · simp only [semCapOf, h1]
+      exact cap_enough henough K nb
+  · simp at hm
+
+/-- all interleavings: no panic, no blocked release, no deadlock -/
+theorem proto_safe_core (ws rs : List Fn) (f : Fn) (hm : MainOK ws rs f = true) (K nb : Nat) (hK : 1 ≤ K) (hnb : 1 ≤ nb)
+    (split : Nat → Bool) (pick : Nat → Fn) (hpick : ∀ j, WorkerOK (pick j) = true) (s : State)
+    (hr : Reachable (capOf (semCapOf f K nb)) (initState (mainTrace f rs K nb true split pick)) s) :
+    Safe (capOf (semCapOf f K nb)) s := by
+  obtain ⟨htr, hcap⟩ := mainOK_normal ws rs f hm K nb hnb split pick hpick
+  rw [htr] at hr
+  have hinv := inv_reachable (init_inv K nb split) hr
+  have := nsplit_le split nb
+  exact safe_of_inv (by omega) (by omega) hinv
+
 end GV.MSMProto
